@@ -240,7 +240,7 @@ def impl_tokens(src, via="direct"):
 
 def _tokens_via_template(src):
     """Tokens the patched Template.compile_nodelist hands to the Parser."""
-    from django.template import Engine, NodeList, Template
+    from django.template import NodeList, Template
 
     import django_components.util.django_monkeypatch as mp
 
